@@ -44,6 +44,8 @@ var verifBadExprs = []struct {
 	{" ]] ", 1}, {" a b ", 3}, {"a..b", 2}, {"(a", 2}, {"a &  b", 3}, {" 0x ", 3}, {"unknown_ctx.x ", 0}, {" foo() ", 1}, {"github.nope ", 0}, {" 1 == github.nope", 6},
 	{"hashFiles('a', null) ", 15}, {"hashFiles('a', 'b', null)", 20}, {"startsWith('a', null)", 16}, {"format('{0}', 1, 2) ", 0},
 	{"github.sha.foo ", 0}, {"!github.nope", 1}, {"(github.nope)", 1}, {"'a' < github", 0},
+	// well-typed but not printable: "object, array, and null values should not be evaluated in template", reported at the ${{
+	{"github.event ", -3}, {" null ", -3},
 }
 
 // HarnessC07Template: a template string pre + ${{ good }} + mid + ${{ bad }}
